@@ -235,7 +235,7 @@ func init() {
 		// carry the value as an integral float when d is a multiple of 1s, otherwise floor is taken
 		// at conversion time. We return a symFloat holding floor(d/1s) and note the approximation.
 		fr.i.m.note("Duration.Seconds() of a symbolic duration is modelled as floor(d/1s) (fosite truncates it to an integer)")
-		return symFloat{mkFloorDiv(d, 1e9)}
+		return symFloat{t: mkFloorDiv(d, 1e9)}
 	})
 	reg("(time.Duration).String", func(fr *frame, a []value) value {
 		d := toTerm(a[0])
